@@ -58,8 +58,7 @@ def spellings():
         out.append(("explicit", pair + "_NEW"))
     for a in alias_names():
         out.append(("alias", "HEX_REG_ALIAS_" + a))
-        if a != "PC":
-            out.append(("alias", "HEX_REG_ALIAS_" + a + "_NEW"))
+        out.append(("alias", "HEX_REG_ALIAS_" + a + "_NEW"))
     for i in "rRsSuUmn":
         out.append(("imm", i + "iV"))
     return out
